@@ -155,7 +155,10 @@ func encCap(g *pk.Gen, c capSet, ref bool, tag string) []byte {
 			reordered = !eq(canon, bs)
 		}
 	}
-	_ = reordered
+	if reordered {
+		// detail only (differs from run to run): the implementation wrote the blocks in another order
+		tag += ";reordered"
+	}
 	if g.Want[1] {
 		in := sx.L{sx.I(tokCapability), c.tree()}
 		switch {
